@@ -454,6 +454,22 @@ def const_eval(t: T, env: Optional[Dict[T, object]] = None):
                 recv = ev(tm.method_recv(x))
                 if isinstance(recv, str):
                     return getattr(recv, n[1:])(*args)
+            if n in (".match", ".fullmatch", ".search") and len(args) == 1:
+                # a precompiled constant pattern applied to a constant text:
+                # None / a match object (only its None-ness is used)
+                rc = tm.method_recv(x)
+                while rc.op == "named":
+                    rc = rc.args[1]
+                if is_call_to(rc, "re.compile") and rc.args[1] and \
+                        tm.is_const(rc.args[1][0]) and not rc.args[2] and \
+                        len(rc.args[1]) == 1 and isinstance(args[0], str):
+                    import re as _re
+                    return getattr(_re.compile(tm.const_val(rc.args[1][0])),
+                                   n[1:])(args[0])
+            if n in ("re.match", "re.fullmatch", "re.search") and \
+                    len(args) == 2 and all(isinstance(a, str) for a in args):
+                import re as _re
+                return getattr(_re, n[3:])(*args)
             if n == ".is_integer" and not args:
                 recv = ev(tm.method_recv(x))
                 if isinstance(recv, float):
